@@ -497,7 +497,7 @@ namespace Clipper2Lib {
     size_t len = p.size();
     if (len < 3)
     {
-      if (!is_open_path || len < 2 || p[0] == p[1]) return Path64();
+      if (!is_open_path || len < 2) return Path64();
       else return p;
     }
 
